@@ -340,6 +340,9 @@ for _pid, _ts in EXTRA.items():
 
 # function-level request / grease stream
 _REQS = {"args": ["reqs"], "shards_quick": 8, "shards_thorough": 16}
+# the exhaustive version-list scenarios also belong to C09: a framed request must be answered by the IETF responder or not at all
+PROPS["C09"]["streams"] = PROPS["C09"]["streams"] + [{"args": ["srv", "c12"], "shards_quick": 8, "shards_thorough": 16}]
+PROPS["C09"]["rule"] += "; plus C12's exhaustive version-list scenarios (every reply judged per socket as above)"
 for _pid, _op in (("C07", "req"), ("C12", "req"), ("C02", "grease")):
     PROPS[_pid]["streams"] = PROPS[_pid]["streams"] + [_REQS]
     PROPS[_pid]["ops"] = PROPS[_pid]["ops"] + [_op]
